@@ -21,7 +21,9 @@ def main():
     if args.replay:
         sys.exit(mod.replay(chk, args.replay))
     if not args.no_build:
-        chk.add_obligations(common.build_property(prop, extract=getattr(mod, "EXTRACT", True)))
+        chk.add_obligations(common.build_property(prop, extract=getattr(mod, "EXTRACT", True),
+                                                  runners=getattr(mod, "RUNNERS", ()),
+                                                  facts=getattr(mod, "FACTS", ("tables", "parser"))))
     runner_ok = all(o.ok for o in chk.obligations if o.kind == "build")
     mod.run(chk, runner_ok)
     sys.exit(chk.finish(level="proof", rule=getattr(mod, "RULE", "")))
